@@ -34,7 +34,9 @@ theorem assert_decide {P : Prop} [Decidable P] (h : P) : Rs.assert (decide P) = 
 
 theorem sub_one_ok {a : Nat} (h : 0 < a) : Rs.sub a 1 = .ok (a - 1) := sub_ok h
 
-theorem ok_bind {α β : Type} (a : α) (f : α → Rs.M β) : (Except.ok a >>= f) = f a := rfl
+/- NB: deliberately *not* `rfl`-theorems (`id rfl`): `simp` then records an explicit proof step
+   instead of leaving a big definitional-equality problem to the kernel, which can be very slow. -/
+theorem ok_bind {α β : Type} (a : α) (f : α → Rs.M β) : (Except.ok a >>= f) = f a := id rfl
 
 theorem MAX_eq : Rs.MAX = 18446744073709551615 := by decide
 theorem IMAX_eq : Rs.IMAX = 9223372036854775807 := by decide
@@ -140,7 +142,7 @@ theorem assert_band {a x : Nat} {inst : Decidable (Rs.band x (a - 1) = 0)} (ha :
     Rs.assert (@decide (Rs.band x (a - 1) = 0) inst) = .ok () :=
   assert_dec (ha.band_mask_eq_zero h)
 
-theorem pure_eq_ok {α : Type} (x : α) : (pure x : Rs.M α) = .ok x := rfl
+theorem pure_eq_ok {α : Type} (x : α) : (pure x : Rs.M α) = .ok x := id rfl
 
 macro "rs_disch" : tactic =>
   `(tactic| first | assumption | omega | (apply Nat.mod_eq_zero_of_dvd; assumption))
@@ -235,13 +237,39 @@ theorem Valid.facts {up : Bool} {p : BumpProps} (h : Valid up p) :
 
 /-! ## The simplification tactic used by the equivalence proofs -/
 
+theorem assert_true : Rs.assert true = .ok () := id rfl
+
+theorem assert_band_add {a x y : Nat} {inst : Decidable (Rs.band (x + y) (a - 1) = 0)} (ha : P2 a)
+    (hx : a ∣ x) (hy : a ∣ y) : Rs.assert (@decide (Rs.band (x + y) (a - 1) = 0) inst) = .ok () :=
+  assert_band ha ((Nat.dvd_add_right hx).2 hy)
+
+theorem upAlign_add_self {m x y : Nat} (hm : 0 < m) (hx : m ∣ x) (hy : m ∣ y) :
+    Spec.upAlign (x + y) m = x + y :=
+  upAlign_eq_self hm ((Nat.dvd_add_right hx).2 hy)
+
+theorem saturating_add_ok {x y : Nat} (h : x + y < 2 ^ 64) : Rs.saturating_add x y = x + y := by
+  unfold Rs.saturating_add; rw [if_pos (by rw [MAX_eq]; omega)]
+
+theorem saturating_add_sat {x y : Nat} (h : 2 ^ 64 ≤ x + y) : Rs.saturating_add x y = Rs.MAX := by
+  unfold Rs.saturating_add; rw [if_neg (by rw [MAX_eq]; omega)]
+
 theorem assert_p2 {a : Nat} (ha : P2 a) : Rs.assert (Rs.is_power_of_two a) = .ok () :=
   assert_ok ha.is_power_of_two
 
-macro "rs_simp" : tactic =>
-  `(tactic| simp (disch := rs_disch) only [ok_bind, pure_eq_ok, assert_dec, assert_band, assert_p2, add_ok', sub_ok,
+/-- `rs_simp [facts]`: evaluate a straight-line piece of generated code: every checked operator,
+    assertion and alignment helper whose side condition follows from the context is replaced by its
+    value; `facts` decide the `if`s. -/
+syntax "rs_simp" (" [" Lean.Parser.Tactic.simpLemma,* "]")? : tactic
+macro_rules
+  | `(tactic| rs_simp) =>
+    `(tactic| simp (disch := rs_disch) only [ok_bind, pure_eq_ok, assert_dec, assert_band, assert_p2, assert_true, add_ok', sub_ok,
       rem_ok, down_align_eq, up_align_unchecked_eq, as_isize_small', remaining_regular', remaining_dummy,
       decide_true, decide_false, decide_eq_true_eq, ↓reduceIte, Bool.false_eq_true, Bool.and_true, Bool.and_false,
       Bool.true_and, Bool.false_and])
+  | `(tactic| rs_simp [$ls,*]) =>
+    `(tactic| simp (disch := rs_disch) only [ok_bind, pure_eq_ok, assert_dec, assert_band, assert_p2, assert_true, add_ok', sub_ok,
+      rem_ok, down_align_eq, up_align_unchecked_eq, as_isize_small', remaining_regular', remaining_dummy,
+      decide_true, decide_false, decide_eq_true_eq, ↓reduceIte, Bool.false_eq_true, Bool.and_true, Bool.and_false,
+      Bool.true_and, Bool.false_and, $ls,*])
 
 end Lemmas
